@@ -6,10 +6,12 @@
      backend:  eventWg.Add(len(backends)) first; per backend: take a token of concurrentEvents (blocks when all are in use), start a
                goroutine: SendEvent, then eventWg.Done() and the token goes back
      WaitForEvents = cloud wg.Wait(); then backend eventWg.Wait()
-   Composed with the EventProp monitor. WaitOrderSwapped = TRUE waits for the backends first (a broken variant for vacuity). *)
+   A backend's SendEvent may fail with an error of its own; the token goes back all the same.
+   Composed with the EventProp monitor. Broken variants for vacuity: WaitOrderSwapped = TRUE waits for the backends first;
+   LeakTokenOnError = TRUE gives the token back only after a successful send (round-3 seeded change m1). *)
 EXTENDS Naturals, FiniteSets, Sequences, TLC
 
-CONSTANTS NEvents, B, Tokens, WaitOrderSwapped
+CONSTANTS NEvents, B, Tokens, WaitOrderSwapped, LeakTokenOnError
 
 VARIABLES nextEv, parked, fwd, fwdN, cloudWg, backWg, tokens, pending, running, waiter,
           offered, accepted, handed, sent, waits, bad, nb
@@ -42,9 +44,13 @@ StartSend(b, e) == /\ <<b, e>> \in pending /\ tokens > 0 /\ tokens' = tokens - 1
                    /\ pending' = pending \ {<<b, e>>} /\ running' = running \cup {<<b, e>>}
                    /\ Prop!PHanded(b, e, TRUE)
                    /\ UNCHANGED <<nextEv, parked, fwd, fwdN, cloudWg, backWg, waiter>>
-EndSend(b, e) == /\ <<b, e>> \in running /\ running' = running \ {<<b, e>>} /\ tokens' = tokens + 1 /\ backWg' = backWg - 1
-                 /\ Prop!PSent(b, e, TRUE)
-                 /\ UNCHANGED <<nextEv, parked, fwd, fwdN, cloudWg, pending, waiter>>
+EndSend(b, e, err) == /\ <<b, e>> \in running /\ running' = running \ {<<b, e>>} /\ backWg' = backWg - 1
+                      /\ tokens' = (IF err /\ LeakTokenOnError THEN tokens ELSE tokens + 1)
+                      /\ Prop!PSent(b, e, TRUE)            \* the event reached the backend; what its transport did afterwards is the backend's affair
+                      /\ UNCHANGED <<nextEv, parked, fwd, fwdN, cloudWg, pending, waiter>>
+\* everything has arrived and nothing can move any more
+Quiesce == /\ nextEv > NEvents /\ parked = {} /\ fwd = <<>> /\ fwdN = 0 /\ running = {} /\ (pending = {} \/ tokens = 0) /\ waiter = "none"
+           /\ Prop!PQuiesce /\ UNCHANGED ivars
 WaitCall == /\ waiter = "none" /\ waiter' = (IF WaitOrderSwapped THEN "backend" ELSE "cloud") /\ Prop!PWaitCall /\ UNCHANGED <<nextEv, parked, fwd, fwdN, cloudWg, backWg, tokens, pending, running>>
 WaitStep == \/ /\ waiter = "cloud" /\ cloudWg = 0 /\ waiter' = (IF WaitOrderSwapped THEN "done" ELSE "backend")
                /\ UNCHANGED <<nextEv, parked, fwd, fwdN, cloudWg, backWg, tokens, pending, running>> /\ MonUnch
@@ -53,7 +59,8 @@ WaitStep == \/ /\ waiter = "cloud" /\ cloudWg = 0 /\ waiter' = (IF WaitOrderSwap
 WaitReturn == /\ waiter = "done" /\ waiter' = "none" /\ Prop!PWaitReturn /\ UNCHANGED <<nextEv, parked, fwd, fwdN, cloudWg, backWg, tokens, pending, running>>
 
 Next == \/ \E h \in BOOLEAN : Arrive(h) \/ Answer \/ FwdOne \/ FwdDone \/ WaitCall \/ WaitStep \/ WaitReturn
-        \/ \E e \in 1..NEvents : \E b \in 1..B : StartSend(b, e) \/ EndSend(b, e)
+        \/ \E e \in 1..NEvents : \E b \in 1..B : StartSend(b, e) \/ \E err \in BOOLEAN : EndSend(b, e, err)
+        \/ Quiesce
 Spec == Init /\ [][Next]_vars
 MonitorQuiet == bad = ""
 =============================================================================
